@@ -18,6 +18,7 @@ EXPLANATION = ("In ChargingNetwork: every method that writes one of the three pa
                "constructed and dropped, + and - zero-fill missing stations; constraint_current selects rows by iterating the network's "
                "own constraint list filtered by membership (network order) and columns by the requested time indices."
                ' Added in round 3: no operand of the Current algebra is turned into a positional array on the way into the result; the unknown-station rejection is recognised in loop, filtered-collection and generator form; the stored label was looked up in (or renamed because of) the existing names on every path (decision table).')
+EXPLANATION += ' Added in rounds 4-5: on every path of __add__ / __sub__ the result is, as a linear form in (self, other), self +/- other (an operand tested empty counts as 0); station-order round trip.'
 NOT_DECIDED = "numeric content of the matrix after a particular sequence; behaviour of pandas reindex/concat themselves (trusted as documented)"
 
 TRIPLE = ("constraint_matrix", "magnitudes", "constraint_index")
